@@ -46,7 +46,7 @@ prop("C01",
      quick=[run("C01_step", covers=C01_COVERS + ["reopened"], nmax=2, cache=1),
             run("C01_step", covers=C01_COVERS, nmin=3, nmax=3, store=0, cache=0)],
      thorough=[run("C01_step", covers=C01_COVERS + ["reopened"], nmax=2, cache=1, klen=2, vlen=1, budget=1800),
-               run("C01_step", covers=C01_COVERS + ["reopened"], nmin=3, nmax=3, cache=2, budget=1800),
+               run("C01_step", covers=C01_COVERS + ["reopened"], nmin=3, nmax=3, cache=2, vlenmin=1, budget=1800),
                run("C01_step", covers=C01_COVERS, nmin=4, nmax=4, store=0, cache=0, budget=1800)],
      outside=["trees with more than 3 (quick) / 4 (thorough) items before the step", "keys longer than 2 bytes except the 65535/65536-byte boundary keys (concrete zeros but for the first byte)", "values longer than 2 bytes", "histories are covered inductively: one step from every constructed valid state; multi-step HIST runs are in C13/C02"],
      text="Bounded symbolic model checking of the real SSA: one API call with symbolic key/value/priority from every constructed valid pre-state (all tree shapes, all cache states) is compared with a sorted-map model; the solver decides every data-dependent branch, so each completed path covers all inputs satisfying its path condition.",
